@@ -2,7 +2,7 @@
 # tools/confirm_mutant.sh <ID> <k> [test files...]
 # Re-confirms a seeded change on the current /repo HEAD inside its scratch worktree and files it under seeded/<ID>-<k>/.
 id=$1; k=$2; shift 2; tests=${@:-tests/test_core.py}
-wt=/tmp/mut/$id; out=$wt/out; dst=/verif/seeded/$id-$k
+wt=/tmp/mut/${id}${WSUF:-}; out=$wt/out; dst=/verif/seeded/$id-$k
 cd $wt || exit 3
 git checkout -q -- . && git checkout -q --detach $(git -C /repo rev-parse HEAD) || exit 3
 export PYTHONPATH=$wt/src:/tmp/genjax_env
